@@ -35,6 +35,14 @@ Theorem c05_translated_source_refines_model :
     calls utils_program (S (S d)) "assert_no_intersection" [enc_ls ls] (outcome_ctl (assert_no_intersection ls)).
 Proof. exact translated_assert_no_intersection. Qed.
 
+(* whatever the EXECUTABLE evaluator returns for the translated function on strictly sorted lists, with whatever fuel, is
+   the model's outcome - this is the run the correspondence check performs next to the real function *)
+Theorem c05_translated_source_any_run :
+  forall (ls : list (list String.string)) fl c, Forall (StronglySorted slt) ls ->
+    call utils_program 3 fl "assert_no_intersection" [enc_ls ls] = Some c ->
+    c = outcome_ctl (assert_no_intersection ls).
+Proof. exact translated_run_is_model_outcome. Qed.
+
 (* results are unique: the evaluator is a function *)
 Theorem c05_translated_source_deterministic :
   forall d g vs c1 c2, calls utils_program d g vs c1 -> calls utils_program d g vs c2 -> c1 = c2.
@@ -51,3 +59,4 @@ Print Assumptions c05_translated_source_panics_iff_shared.
 Print Assumptions c05_translated_source_passes_iff_disjoint.
 Print Assumptions c05_translated_source_refines_model.
 Print Assumptions c05_translated_source_deterministic.
+Print Assumptions c05_translated_source_any_run.
